@@ -177,3 +177,72 @@ package config
 //@   modifies fresh []interface{}
 //@   loop 1 binds cidrs
 //@   loop 1 invariant forall n string :: (n in visited) ==> AggrOK(adv, pool, n)
+
+// ---- C08: which pools / nodes an advertisement selects ----
+// SelBy: some selector of the list matches the label set.
+//@ pred SelBy(selectors []metav1.LabelSelector, lbls map[string]string) := exists j int :: 0 <= j && j < len(selectors) && metav1.AsSel(selectors[j]).Matches(labels.Set(lbls))
+// selectedPools: exactly the names of the pools matched by one of the selectors
+//@ func selectedPools
+//@   ensures [exact] result1 == nil ==> (forall x string :: (x in result0) == (exists k int :: 0 <= k && k < len(pools) && pools[k].Name == x && SelBy(selectors, pools[k].Labels)))
+//@   modifies fresh []labels.Selector, fresh []string
+//@   loop 1 binds selector
+//@   loop 1 invariant labelSelectors != nil && fresh(labelSelectors) && len(labelSelectors) == iter
+//@   loop 1 invariant forall j int :: 0 <= j && j < iter ==> labelSelectors[j] == metav1.AsSel(selectors[j])
+//@   loop 2 binds pool
+//@   loop 2 invariant ipPools == nil || fresh(ipPools)
+//@   loop 2 invariant forall x string :: (x in ipPools) == (exists k int :: 0 <= k && k < iter && pools[k].Name == x && SelBy(selectors, pools[k].Labels))
+//@   loop 3 binds s
+//@   loop 3 invariant forall j int :: 0 <= j && j < iter ==> !labelSelectors[j].Matches(labels.Set(pool.Labels))
+// selectedNodes: exactly the names of the nodes matched by one of the selectors - all nodes when there is none
+//@ func selectedNodes
+//@   ensures [exact] result1 == nil ==> result0 != nil && (forall x string :: (x in result0) == (exists k int :: 0 <= k && k < len(nodes) && nodes[k].Name == x && (len(selectors) == 0 || SelBy(selectors, nodes[k].Labels))))
+//@   ensures [allTrue] result1 == nil ==> (forall x string :: (x in result0) ==> result0[x])
+//@   modifies fresh []labels.Selector, fresh map[string]bool
+//@   loop 1 binds selector
+//@   loop 1 invariant labelSelectors != nil && fresh(labelSelectors) && len(labelSelectors) == iter
+//@   loop 1 invariant forall j int :: 0 <= j && j < iter ==> labelSelectors[j] == metav1.AsSel(selectors[j])
+//@   loop 2 binds node
+//@   loop 2 invariant res != nil && fresh(res)
+//@   loop 2 invariant forall x string :: (x in res) == (exists k int :: 0 <= k && k < iter && nodes[k].Name == x && (len(selectors) == 0 || SelBy(selectors, nodes[k].Labels)))
+//@   loop 2 invariant forall x string :: (x in res) ==> res[x]
+//@   loop 3 binds s
+//@   loop 3 invariant forall j int :: 0 <= j && j < iter ==> !labelSelectors[j].Matches(labels.Set(node.Labels))
+
+// ---- C08 / C05: an advertisement resource becomes an advertisement with exactly the nodes its selectors match ----
+// NodeSet: m holds (with value true) exactly the names of the nodes matched by the selectors (all nodes when none).
+//@ pred NodeSet(m map[string]bool, nodes []corev1.Node, selectors []metav1.LabelSelector) := m != nil
+//@     && (forall x string :: (x in m) == (exists k int :: 0 <= k && k < len(nodes) && nodes[k].Name == x && (len(selectors) == 0 || SelBy(selectors, nodes[k].Labels))))
+//@     && (forall x string :: (x in m) ==> m[x])
+// duplicate checks: read-only, except that validateLabelSelectorDuplicate sorts the value lists of match expressions in place
+//@ func validateDuplicate
+//@   trusted
+//@   modifies fresh []interface{}
+//@ func validateLabelSelectorDuplicate
+//@   trusted
+//@   modifies []string, fresh []interface{}
+// CommVal: the value a community name or literal stands for
+//@ ufun CommVal(string, map[string]community.BGPCommunity) community.BGPCommunity
+//@ func getCommunityValue
+//@   trusted
+//@   ensures result1 == nil ==> result0 == CommVal(communityString, communities)
+//@   modifies fresh []interface{}
+
+//@ func l2AdvertisementFromCR
+//@   ensures [made] result1 == nil ==> result0 != nil && fresh(result0)
+//@   ensures [nodes] result1 == nil ==> NodeSet(result0.Nodes, nodes, crdAd.Spec.NodeSelectors)
+//@   ensures [interfaces] result1 == nil ==> sameSlice(result0.Interfaces, crdAd.Spec.Interfaces) && result0.AllInterfaces == (len(crdAd.Spec.Interfaces) == 0)
+//@   modifies []string, fresh *L2Advertisement, fresh map[string]bool, fresh []labels.Selector, fresh []interface{}
+
+//@ func bgpAdvertisementFromCR
+//@   requires communities != nil
+//@   ensures [made] result1 == nil ==> result0 != nil && fresh(result0)
+//@   ensures [nodes] result1 == nil ==> NodeSet(result0.Nodes, nodes, crdAd.Spec.NodeSelectors)
+//@   ensures [localPref] result1 == nil ==> result0.LocalPref == crdAd.Spec.LocalPref
+//@   ensures [aggr4] result1 == nil ==> result0.AggregationLength == ite(crdAd.Spec.AggregationLength != nil, *crdAd.Spec.AggregationLength, 32) && result0.AggregationLength <= 32
+//@   ensures [aggr6] result1 == nil ==> result0.AggregationLengthV6 == ite(crdAd.Spec.AggregationLengthV6 != nil, *crdAd.Spec.AggregationLengthV6, 128) && result0.AggregationLengthV6 <= 128
+//@   ensures [peers] result1 == nil ==> len(result0.Peers) == len(crdAd.Spec.Peers) && (forall k int :: 0 <= k && k < len(crdAd.Spec.Peers) ==> result0.Peers[k] == crdAd.Spec.Peers[k])
+//@   ensures [communities] result1 == nil ==> result0.Communities != nil && (forall v community.BGPCommunity :: (v in result0.Communities) == (exists j int :: 0 <= j && j < len(crdAd.Spec.Communities) && CommVal(crdAd.Spec.Communities[j], communities) == v))
+//@   modifies []string, fresh *BGPAdvertisement, fresh map[string]bool, fresh map[community.BGPCommunity]bool, fresh []labels.Selector, fresh []string, fresh []interface{}
+//@   loop 1 binds c
+//@   loop 1 invariant ad != nil && fresh(ad) && ad.Communities != nil && fresh(ad.Communities)
+//@   loop 1 invariant forall v community.BGPCommunity :: (v in ad.Communities) == (exists j int :: 0 <= j && j < iter && CommVal(crdAd.Spec.Communities[j], communities) == v)
